@@ -129,6 +129,75 @@ pub fn eblc_ebdt() -> (Vec<u8>, Vec<u8>) {
     loc_tables(2, PPEM_EBDT, 1, 1, &recs)
 }
 
+/// One strike of a bitmap table of the `strike` family: size, bit depth, range of glyphs that have a bitmap in it.
+#[derive(Clone, Debug, PartialEq)]
+pub struct Strike {
+    pub ppem: u8,
+    pub depth: u8,
+    pub first: u16,
+    pub last: u16,
+}
+
+/// the bitmap of glyph `g` in strike number `k` (0-based): 2 x 2 pixels, byte-aligned rows; every byte names strike and glyph
+pub fn strike_pixels(k: usize, g: u16, depth: u8) -> Vec<u8> {
+    let row = (depth as usize * 2 + 7) / 8;
+    (0..2 * row).map(|i| 0x80 | ((k as u8) << 4) | ((g as u8 & 7) << 1) | (i as u8 & 1)).collect()
+}
+
+/// A bitmap location table with one BitmapSize record per strike (each with one index sub-table of format 1, image
+/// format 1: small metrics, byte-aligned data) and the data table it points into.  `ver` 2 = EBLC/EBDT, 3 = CBLC/CBDT.
+pub fn strike_tables(ver: u16, strikes: &[Strike]) -> (Vec<u8>, Vec<u8>) {
+    let mut dat = W::new();
+    dat.u16(ver).u16(0);
+    let n = strikes.len();
+    let mut arrays: Vec<Vec<u8>> = Vec::new();
+    let mut dat_len = 4usize;
+    for (k, s) in strikes.iter().enumerate() {
+        let mut offs = vec![0usize];
+        let mut body = W::new();
+        for g in s.first..=s.last {
+            body.u8(2).u8(2).i8(0).i8(2).u8(3).bytes(&strike_pixels(k, g, s.depth));
+            offs.push(body.len());
+        }
+        let body = body.done();
+        let mut arr = W::new();
+        arr.u16(s.first).u16(s.last).u32(8);
+        arr.u16(1).u16(1).u32(dat_len as u32);
+        for o in &offs {
+            arr.u32(*o as u32);
+        }
+        dat_len += body.len();
+        dat.bytes(&body);
+        arrays.push(arr.done());
+    }
+    let mut loc = W::new();
+    loc.u16(ver).u16(0).u32(n as u32);
+    let mut at = 8 + 48 * n;
+    for (k, s) in strikes.iter().enumerate() {
+        loc.u32(at as u32).u32(arrays[k].len() as u32).u32(1).u32(0);
+        line_metrics(&mut loc, 12, -4);
+        line_metrics(&mut loc, 10, -3);
+        loc.u16(s.first).u16(s.last).u8(s.ppem).u8(s.ppem).u8(s.depth).i8(1);
+        at += arrays[k].len();
+    }
+    for a in &arrays {
+        loc.bytes(a);
+    }
+    (loc.done(), dat.done())
+}
+
+/// Independent look at a built location table (plain offset arithmetic): the strikes it declares, in order.
+pub fn read_strikes(loc: &[u8]) -> Option<Vec<Strike>> {
+    let be16 = |o: usize| loc.get(o..o + 2).map(|b| u16::from_be_bytes([b[0], b[1]]));
+    let n = u32::from_be_bytes([*loc.get(4)?, *loc.get(5)?, *loc.get(6)?, *loc.get(7)?]) as usize;
+    let mut v = Vec::new();
+    for k in 0..n {
+        let r = 8 + 48 * k;
+        v.push(Strike { first: be16(r + 40)?, last: be16(r + 42)?, ppem: *loc.get(r + 44)?, depth: *loc.get(r + 46)? });
+    }
+    Some(v)
+}
+
 /// The tables (tag, bytes) of the image kinds in the bit set `imgs`.
 pub fn tables(imgs: u8, num_glyphs: u16) -> Vec<(String, Vec<u8>)> {
     let mut v = Vec::new();
